@@ -1,1 +1,116 @@
-(* placeholder: to be written *)
+(** C08 — Energy equals the time-weighted sum of the account's locked tokens.
+    Statements only; proofs are in Proofs/EnergyProofs.v.
+
+    Reading guide.  [s_bal s] is the ledger of real locked-token balances (holder x unlock epoch),
+    compared with the chain state after every operation of the correspondence run; user accounts are
+    the ids > 0, the contract accounts holding tokens in escrow are H_UNSTAKE (unbonding), H_XFER
+    (pending LKMEX transfer) and H_WRAP (wrapped), all <= 0.  [epochs_of l u] enumerates without
+    repetition the unlock epochs of the tokens the ledger mentions for u, [lget l u e] is u's balance of
+    the token with unlock epoch e, so
+        spec_energy l u now = sum over u's locked tokens of balance * (unlock_epoch - now)   (terms of
+                              either sign: a token past its unlock epoch contributes negatively)
+        spec_total  l u     = sum over u's locked tokens of balance.
+    [view_entry] / [view_amount] are getEnergyEntryForUser / getEnergyAmountForUser. *)
+From MX Require Import Base.Prelude Gen.Params Model.Energy Proofs.EnergyProofs.
+
+(** The two sums, spelled out (definitional unfolding, to pin what the theorems are about). *)
+Theorem C08_spec_meaning : forall l u now,
+  spec_energy l u now = fold_right (fun e acc => lget l u e * (e - now) + acc) 0 (epochs_of l u) /\
+  spec_total l u = fold_right (fun e acc => lget l u e + acc) 0 (epochs_of l u) /\
+  NoDup (epochs_of l u) /\
+  (forall e, ~ In e (epochs_of l u) -> lget l u e = 0).
+Proof. exact spec_meaning. Qed.
+Print Assumptions C08_spec_meaning.
+
+(** What the invariant gives for every user account: the reported entry IS the time-weighted sum of
+    the tokens the account holds, its total is the sum of the amounts, and the amount view is the sum
+    clamped at zero. *)
+Theorem C08_energy_is_time_weighted_sum : forall s u, EnergyInv s -> 0 < u ->
+  e_amt (view_entry s u) = spec_energy (s_bal s) u (s_now s) /\
+  e_tot (view_entry s u) = spec_total (s_bal s) u /\
+  e_upd (view_entry s u) = s_now s /\
+  view_amount s u = Z.max 0 (spec_energy (s_bal s) u (s_now s)).
+Proof. exact inv_view. Qed.
+Print Assumptions C08_energy_is_time_weighted_sum.
+
+(** Every successful operation — lock (own / other destination / lockVirtual), extend (own / through
+    the whitelisted contract), merge, reduce, unlock, unlockEarly, claimUnlockedTokens, cancelUnbond,
+    lockFunds, withdraw, cancelTransfer, wrap, unwrap, wrapped-token transfer, epoch advance — by any
+    account with any arguments preserves it; a failed one changes nothing ([step_total]). *)
+Theorem C08_step : forall s op s' o, EnergyInv s -> step s op = Ok (s', o) -> EnergyInv s'.
+Proof. exact step_inv. Qed.
+Print Assumptions C08_step.
+
+(** Every reachable state: any interleaving of any length, from any start epoch and any configuration
+    whose lock options [addLockOptions] accepts (any unbond / cooldown / minimum-lock settings). *)
+Theorem C08_reach : forall c epoch ops, valid_opts (c_opts c) = true -> 0 <= epoch ->
+  EnergyInv (run (init_state c epoch) ops).
+Proof. exact reach_inv. Qed.
+Print Assumptions C08_reach.
+
+(** The property in one statement. *)
+Theorem C08_reach_view : forall c epoch ops u, valid_opts (c_opts c) = true -> 0 <= epoch -> 0 < u ->
+  let s := run (init_state c epoch) ops in
+  e_amt (view_entry s u) = spec_energy (s_bal s) u (s_now s) /\
+  e_tot (view_entry s u) = spec_total (s_bal s) u /\
+  view_amount s u = Z.max 0 (spec_energy (s_bal s) u (s_now s)).
+Proof. exact reach_view. Qed.
+Print Assumptions C08_reach_view.
+
+(** Escrow gives energy to nobody.  (1) The sums above range over the account's OWN balances only;
+    (2) the contract accounts — the three escrows among them — never have an entry, whatever they
+    hold; (3) an operation that does not touch an account's own balances does not touch its entry:
+    tokens entering, sitting in or leaving escrow never show up in a third party's energy. *)
+Theorem C08_escrow_has_no_energy : forall s h, EnergyInv s -> h <= 0 ->
+  view_entry s h = mkEn 0 (s_now s) 0 /\ view_amount s h = 0.
+Proof. exact inv_escrow. Qed.
+Print Assumptions C08_escrow_has_no_energy.
+
+Theorem C08_third_party_unaffected : forall s s' u, EnergyInv s -> EnergyInv s' -> 0 < u -> s_now s' = s_now s ->
+  (forall e, lget (s_bal s') u e = lget (s_bal s) u e) ->
+  epochs_of (s_bal s') u = epochs_of (s_bal s) u ->
+  view_entry s' u = view_entry s u.
+Proof. exact inv_frame_view. Qed.
+Print Assumptions C08_third_party_unaffected.
+
+(** The escrow accounts hold exactly what is pending: the unbond queue, the scheduled transfers and
+    the wrapped supply are backed token for token, per unlock epoch. *)
+Theorem C08_escrow_backed : forall c epoch ops e, valid_opts (c_opts c) = true -> 0 <= epoch ->
+  let s := run (init_state c epoch) ops in
+  lget (s_bal s) H_UNSTAKE e = unbonding s e /\
+  lget (s_bal s) H_XFER e = in_transfer s e /\
+  lget (s_bal s) H_WRAP e = wrapped_supply s e.
+Proof. exact reach_escrow. Qed.
+Print Assumptions C08_escrow_backed.
+
+(** Call sites of add_after_token_lock: every successful lock / lockVirtual / extend / merge / reduce
+    produces a token whose unlock epoch is strictly in the future (month rounding and the upper
+    estimate included), so [lock_tokens] never returns the payment unlocked and the energy term is
+    never silently dropped. *)
+Theorem C08_new_token_in_future : forall s op s' o, EnergyInv s -> makes_token op = true ->
+  step s op = Ok (s', o) -> exists ne ma, o = [ne; ma] /\ s_now s < ne /\ 0 < ma.
+Proof. exact new_token_in_future. Qed.
+Print Assumptions C08_new_token_in_future.
+
+(** Non-vacuity: a concrete history (replayed on the real contracts by tools/props/c08.py) in which
+    all 22 operations succeed; at the end account 1 holds four kinds of locked token, one of them past
+    its unlock epoch (negative term), while tokens sit in all three escrows. *)
+Definition c08_cfg : cfg := mkCfg [(360, 4000); (720, 6000); (1440, 8000)] 10 4 6.
+Definition c08_ops : list eop :=
+  [Lock 1 1000 360 1; Lock 1 5000 1440 1; Lock 2 700 720 3; LockVirtual 2 900 360; Reduce 1 1440 1000 360;
+   UnlockEarly 1 360 300; UnlockEarly 3 720 50; Wrap 1 1440 500; WTransfer 1 2 1440 200;
+   LockFunds 1 3 [(1440, 100); (360, 50)]; Advance 5; Withdraw 3 1; Unwrap 2 1440 200; Extend 3 720 100 1440 3;
+   ExtendVia 1 360 100 720; Merge 1 [(1440, 10); (720, 20)]; Advance 360; Unlock 2 [(360, 400)]; CancelUnbond 1;
+   Claim 3; UnlockEarly 1 1440 90; LockFunds 2 1 [(1440, 10)]].
+Example C08_nonvacuous :
+  let s := run (init_state c08_cfg 5) c08_ops in
+  valid_opts (c_opts c08_cfg) = true /\
+  forallb (fun k => is_ok (step (run (init_state c08_cfg 5) (firstn k c08_ops)) (nth k c08_ops (Advance 0))))
+          (seq 0 22) = true /\
+  s_now s = 370 /\
+  epochs_of (s_bal s) 1 = [960; 720; 1440; 360] /\
+  map (lget (s_bal s) 1) (epochs_of (s_bal s) 1) = [30; 80; 3300; 1183] /\
+  e_amt (view_entry s 1) = 30 * (960 - 370) + 80 * (720 - 370) + 3300 * (1440 - 370) + 1183 * (360 - 370) /\
+  e_tot (view_entry s 1) = 4593 /\
+  lget (s_bal s) H_WRAP 1440 = 300 /\ lget (s_bal s) H_XFER 1440 = 10 /\ lget (s_bal s) H_UNSTAKE 1440 = 90.
+Proof. vm_compute. repeat split. Qed.
